@@ -4,3 +4,4 @@ pub mod ufo;
 pub mod corpus;
 pub mod gplist;
 pub mod reformat;
+pub mod glyphs;
